@@ -15,7 +15,17 @@
 // deadlock detector, whose only effect - "deadlock" instead of "locked" - is
 // an accepted alternative), and the stored entries are compared with the
 // reference state after every step: two sequences that agree with the model
-// and reach the same model state leave the same stored entries.
+// and reach the same model state leave the same stored entries. Where the
+// stored entries differ from the reference state without a differing answer
+// (nothing the property text demands by itself), the differing entries become
+// part of the deduplication key: such a state is explored like any other, so
+// that a consequence (a later answer or read) is found within the depth bound
+// instead of being hidden behind an earlier visit of the same reference state.
+//
+// Two plans share the engine: the general one (ops.go: every command, one ttl
+// and at most one min-commit-ts per request, 2-3 keys and transactions, depth
+// 3-4) and "ttlmc" (ttlmc.go: the life cycle of a lock with its ttl and
+// min-commit-ts as state, 1-2 keys and transactions, depth 4-8).
 package main
 
 import (
@@ -76,10 +86,11 @@ type engine struct {
 	visited sync.Map // [32]byte -> struct{}
 
 	states, transitions, validated, evaluations, nontrivial, probes atomic.Int64
-	undefinedSkips, pruned, deviating                               atomic.Int64
+	undefinedSkips, pruned, deviating, devNotExpanded               atomic.Int64
 
 	fixpoint   bool // the last explored level produced no new state: the whole reachable space of the alphabet is covered
 	mu         sync.Mutex
+	devProbed  sync.Map          // difference class -> *atomic.Int64: frontier states of that class probed so far
 	undefined  sync.Map          // string -> *atomic.Int64
 	outcomes   sync.Map          // string -> *atomic.Int64
 	confirmed  sync.Map          // violation key -> struct{}: already reproduced on a new instance
@@ -104,6 +115,9 @@ type worker struct {
 }
 
 const recreateEvery = 4
+
+// maxDevPerClassAndLevel: see bfs.
+const maxDevPerClassAndLevel = 24
 
 // empty returns an empty instance (reset, or a new one every recreateEvery uses
 // because deleted entries slow down the iterators of a long-lived instance).
@@ -163,12 +177,14 @@ func (e *engine) artefact(path []Op, note string) replayArtefact {
 // step runs one command on the mock in state pre and checks answer, stored
 // state and state laws. It returns the findings and the mock's dump.
 func (e *engine) step(m *mock, pre, post *refmvcc.Store, o Op, want Result) (fs []finding, diffDump bool) {
-	fs, diffDump, _ = e.stepD(m, pre, post, o, want)
+	fs, diffDump, _ = e.stepD(m, pre, post, o, want, "", false)
 	return fs, diffDump
 }
 
 // stepD also returns the mock's stored entries after the step ("" if they could not be read).
-func (e *engine) stepD(m *mock, pre, post *refmvcc.Store, o Op, want Result) (fs []finding, diffDump bool, dump string) {
+// preImpl: the mock's stored entries before the step if known ("" = unknown);
+// preDev: they already differed from the reference before the step.
+func (e *engine) stepD(m *mock, pre, post *refmvcc.Store, o Op, want Result, preImpl string, preDev bool) (fs []finding, diffDump bool, dump string) {
 	got, pan := guardApply(m, o)
 	e.transitions.Add(1)
 	if pan != "" {
@@ -215,16 +231,22 @@ func (e *engine) stepD(m *mock, pre, post *refmvcc.Store, o Op, want Result) (fs
 			}
 		}
 	}
-	if diffDump && !hasViolation(fs) {
-		// Same answer but different stored entries: look for a visible consequence right
-		// away (the successor state may have been visited before and would not be observed).
+	if diffDump && dump != preImpl && !preDev && !hasViolation(fs) {
+		// Same answer but different stored entries, and the difference arises in this step:
+		// look for a visible consequence right away, so that the finding names this step.
+		// (A successor of a state that already differed is a state of its own and gets the
+		// observation set when it is first reached.)
 		var fails []obsFail
 		func() {
 			defer func() { recover() }()
 			fails, _ = m.observe(e.cfg, post)
 		}()
 		for _, f := range fails {
-			fs = append(fs, finding{key: f.key + ":after:" + variant(o), what: fmt.Sprintf("after %s: %s", o, f.what), violation: true})
+			q := "" // which lock field the request asked less of than the lock held, if any
+			if len(o.Keys) > 0 {
+				q = lockFieldSituation(pre, o, o.Keys[0])
+			}
+			fs = append(fs, finding{key: f.key + ":after:" + variant(o) + q, what: fmt.Sprintf("after %s: %s", o, f.what), violation: true})
 		}
 	}
 	if o.Kind == "commit" && len(want.Errs) == 1 && want.Errs[0].Class == refmvcc.CommitTsExpired && len(got.Errs) == 1 && got.Errs[0].IsOK() {
@@ -400,7 +422,7 @@ func (w *worker) expand(n *node, last bool, next *[]*node) {
 			m = w.build(n.path)
 			extra = nil
 		}
-		fs, diff, dump := e.stepD(m, n.model, post, o, want)
+		fs, diff, dump := e.stepD(m, n.model, post, o, want, preImpl, n.dev != "")
 		if repeat {
 			tagRepeat(fs)
 		}
@@ -418,7 +440,7 @@ func (w *worker) expand(n *node, last bool, next *[]*node) {
 				for _, p := range n.path {
 					guardApply(fm, p)
 				}
-				fs2, _ := e.step(fm, n.model, post, o, want)
+				fs2, _, _ := e.stepD(fm, n.model, post, o, want, preImpl, n.dev != "")
 				fm.close()
 				if repeat {
 					tagRepeat(fs2)
@@ -441,7 +463,8 @@ func (w *worker) expand(n *node, last bool, next *[]*node) {
 			}
 		}
 		if !changed {
-			if diff || hasViolation(fs) {
+			// neither side changed (diff can only be the difference the state n came with)
+			if hasViolation(fs) || dump == "" {
 				if hasViolation(fs) {
 					e.consequence(m, post, fs)
 				}
@@ -475,9 +498,21 @@ func (w *worker) expand(n *node, last bool, next *[]*node) {
 			if diff {
 				e.deviating.Add(1)
 			}
-			e.observeState(m, post, path)
+			if !(diff && n.dev == "") { // (a difference that arose in this step had its observation set run by stepD)
+				sfx := ""
+				if n.dev != "" {
+					sfx = ":after-" + n.devKey
+				}
+				e.observeStateK(m, post, path, sfx)
+			}
 			if last {
-				w.probe(m, succ)
+				if succ.dev == "" {
+					w.probe(m, succ)
+				} else if v, _ := e.devProbed.LoadOrStore(succ.devKey, new(atomic.Int64)); v.(*atomic.Int64).Add(1) <= maxDevPerClassAndLevel {
+					w.probe(m, succ)
+				} else {
+					e.devNotExpanded.Add(1)
+				}
 			} else {
 				*next = append(*next, succ)
 			}
@@ -541,7 +576,10 @@ func sameKeys(a, b []finding) bool {
 }
 
 // observeState runs the observation set and the invariants of appendix B on a newly reached state.
-func (e *engine) observeState(m *mock, s *refmvcc.Store, path []Op) {
+func (e *engine) observeState(m *mock, s *refmvcc.Store, path []Op) { e.observeStateK(m, s, path, "") }
+
+// observeStateK: keySuffix names the earlier stored-state difference the state descends from, if any.
+func (e *engine) observeStateK(m *mock, s *refmvcc.Store, path []Op, keySuffix string) {
 	if inv := s.CheckInvariants(); inv != "" {
 		// the reference itself left its invariants: a harness/model defect or a precondition hole, never silently ignored
 		e.run.Violation("reference-invariant", "reference model state violates its invariant: "+inv+"   sequence: "+fmt.Sprint(seqText(path)), e.artefact(path, inv))
@@ -558,7 +596,7 @@ func (e *engine) observeState(m *mock, s *refmvcc.Store, path []Op) {
 	}()
 	e.evaluations.Add(int64(n))
 	for _, f := range fails {
-		e.run.Violation(f.key, f.what+"   sequence: "+fmt.Sprint(seqText(path)), e.artefact(path, f.what))
+		e.run.Violation(f.key+keySuffix, f.what+"   sequence: "+fmt.Sprint(seqText(path)), e.artefact(path, f.what))
 	}
 }
 
@@ -569,6 +607,10 @@ func (w *worker) probe(m *mock, n *node) {
 	e := w.e
 	s, path := n.model, n.path
 	st := s.State()
+	preImpl := n.dev
+	if preImpl == "" {
+		preImpl = renderModel(s)
+	}
 	for _, o := range e.ops {
 		if e.useRPC && !rpcSupported(o) {
 			continue
@@ -583,7 +625,7 @@ func (w *worker) probe(m *mock, n *node) {
 		if n.dev != "" {
 			m = w.build(path) // deviating state: every probe on a rebuilt instance
 		}
-		fs, diff := e.step(m, s, post, o, want)
+		fs, diff, _ := e.stepD(m, s, post, o, want, preImpl, n.dev != "")
 		if repeat {
 			tagRepeat(fs)
 		}
@@ -604,7 +646,7 @@ func (w *worker) probe(m *mock, n *node) {
 			for _, p := range path {
 				guardApply(fm, p)
 			}
-			fs2, _ := e.step(fm, s, post, o, want)
+			fs2, _, _ := e.stepD(fm, s, post, o, want, preImpl, n.dev != "")
 			fm.close()
 			if repeat {
 				tagRepeat(fs2)
@@ -683,9 +725,26 @@ func (e *engine) bfs(roots [][]Op) {
 		if stop.Load() {
 			e.run.Incomplete(fmt.Sprintf("time budget used up inside level %d", depth+1))
 		}
+		// States whose stored entries differ from the reference (none on a tree that agrees
+		// with it) are expanded up to a cap per difference class and level: a defect in how a
+		// lock is stored multiplies them (reference states x stored variants), and one class
+		// needs a handful of them to show its consequences.
 		var nf []*node
+		devCount := map[string]int{}
 		for _, ns := range nexts {
-			nf = append(nf, ns...)
+			for _, x := range ns {
+				if x.dev != "" {
+					devCount[x.devKey]++
+					if devCount[x.devKey] > maxDevPerClassAndLevel {
+						e.devNotExpanded.Add(1)
+						continue
+					}
+				}
+				nf = append(nf, x)
+			}
+		}
+		if e.devNotExpanded.Load() > 0 {
+			e.run.Incomplete(fmt.Sprintf("more than %d states per level whose stored entries differ from the reference in the same way: the surplus was observed but not expanded", maxDevPerClassAndLevel))
 		}
 		e.levelCount = append(e.levelCount, int(e.states.Load())-statesBefore)
 		frontier = nf
@@ -792,7 +851,7 @@ func main() {
 	undefined := map[string]int{}
 	stateDiffs := map[string]string{}
 	conseq := map[string]string{}
-	var pruned, deviating int64
+	var pruned, deviating, devNotExpanded int64
 	var samples []any
 	perPass := []map[string]any{}
 	for _, p := range passes {
@@ -801,6 +860,7 @@ func main() {
 		e.bfs(p.roots)
 		passWall := time.Since(t0).Seconds()
 		deviating += e.deviating.Load()
+		devNotExpanded += e.devNotExpanded.Load()
 		tot.states += e.states.Load()
 		tot.transitions += e.transitions.Load()
 		tot.validated += e.validated.Load()
@@ -864,6 +924,7 @@ func main() {
 	cov["visible_consequence_of_violation"] = conseq
 	cov["transitions_not_followed_after_violation"] = pruned
 	cov["states_with_stored_entries_differing_from_reference"] = deviating
+	cov["of_those_not_expanded_because_of_the_cap_per_class_and_level"] = devNotExpanded
 	cov["bounds"] = perPass
 	cov["rule"] = "breadth-first over command sequences from the root states (empty store; store with key a committed by an older transaction), " +
 		"every command of the alphabet from every distinct reference-model state up to the depth bound; a step is one command executed on the real MVCCLevelDB " +
@@ -889,6 +950,8 @@ var assumptions = []string{
 	"reference = refmvcc (DESIGN.md appendix B), written from TiKV's documented behaviour; the three definitional points follow the property text",
 	"preconditions of the property text only: pairwise distinct start/commit timestamps with commit > start; no pessimistic lock request of a transaction on a key after it was committed/rolled back there (commands the reference marks as outside the text are skipped and counted)",
 	"tolerated (text silent): Deadlock instead of Locked for pessimistic lock requests; order of existence check vs lock/conflict check for Insert/CheckNotExists; prewrite with pessimistic check over a foreign lock answers Locked with ttl 0 or lock-not-found; rolled-back late prewrite may be worded as write conflict; for-update-ts kept by force-lock; min-commit-ts kept on primary locks only",
+	"lock fields (plan ttlmc): the text fixes that a heartbeat only raises the ttl, that a prewrite over the transaction's own pessimistic lock keeps the larger ttl and min-commit-ts, that a status check pushes the min-commit-ts and that a commit below it is refused; where it is silent the reference follows TiKV: a later pessimistic lock request of the same transaction with a larger for-update-ts replaces the lock with the request's ttl and min-commit-ts, one with an equal or smaller for-update-ts changes nothing, a repeated prewrite over the own prewrite lock changes nothing, the status check pushes every lock that carries a min-commit-ts (pessimistic ones too)",
+	"a state whose stored entries differ from the reference although every answer agreed is explored as a state of its own (deduplication key = reference state + differing entries), at most 24 per difference class and level; there is none on a tree that agrees with the reference",
 	"not covered: assertions, async commit / 1PC, DeleteRange, values longer than a few bytes, empty values, more than one region",
 	"an emptied instance (all entries deleted, new deadlock detector) is used instead of a new one for most replays; every finding is re-run on a new instance before it is reported",
 }
